@@ -116,8 +116,12 @@ def h_volume(ctx, d, N, F, nconfig, centred):
                     ctx.oblige(f"frame {f}: particle {i} coordinate {a} centred on the frame's own box", O.eq(pts[i, a], want))
         if sym:
             for f in range(F):
-                for a in range(d):
-                    ctx.oblige(f"box[{f}] built from the frame's lengths [{a}]", O.eq(stub.boxes[f][a], Ls[f][a]))
+                bx = boxes[f] if f < len(boxes) else None
+                okb = isinstance(bx, tuple) and len(bx) == 2 and bx[0] == "box"
+                ctx.oblige(f"box[{f}] is a box object of the library", okb)
+                if okb:
+                    for a in range(d):
+                        ctx.oblige(f"box[{f}] built from this frame's lengths [{a}]", O.eq(bx[1][a], Ls[f][a]))
             stub.calls.clear()
         m = fn.VolumeMatrix(S, ndim=d, nconfig=nconfig, deltar=dr, transform_matrix=False, outputfile="")
     finally:
@@ -139,6 +143,10 @@ def h_volume(ctx, d, N, F, nconfig, centred):
     if len(calls) != 1 + 2 * N * d:
         return
     box0, pts0, V0 = calls[0]
+    for (bx, _, _) in calls:
+        okb = isinstance(bx, tuple) and len(bx) == 2
+        ctx.oblige("every tessellation of VolumeMatrix uses the box of the requested frame",
+                   okb and O.And(*[O.eq(bx[1][a], Ls[nconfig][a]) for a in range(d)]))
     for i in range(N):
         for a in range(3):
             ctx.oblige(f"unperturbed call uses the requested frame: particle {i} coordinate {a}", O.eq(pts0[i][a], centre[i][a]))
